@@ -44,7 +44,7 @@ func runC09(c *Ctx) {
 	keys := c10PickKeys(r)
 	if c.Case%3 == 0 {
 		// single ascending nullable key: the simplest shape where null handling matters
-		keys = []sortKey{{col: gen.Pick(r, []string{"k2", "os", "o3"}), desc: r.P(30), nullsFirst: r.Bool()}}
+		keys = []sortKey{{col: gen.Pick(r, []string{"k2", "os", "o3", "g.x"}), desc: r.P(30), nullsFirst: r.Bool()}}
 	}
 	var scs []parquet.SortingColumn
 	var kdesc []string
@@ -52,7 +52,7 @@ func runC09(c *Ctx) {
 	for _, k := range keys {
 		scs = append(scs, k.column())
 		kdesc = append(kdesc, k.String())
-		if k.col == "k2" || k.col == "os" || k.col == "o3" {
+		if k.col == "k2" || k.col == "os" || k.col == "o3" || k.col == "g.x" {
 			nullable = true
 		}
 		if k.desc {
@@ -68,6 +68,21 @@ func runC09(c *Ctx) {
 	k := gen.Pick(r, []int{0, 1, 2, 2, 2, 3, 3, 5, 8, 17})
 	overlap := gen.Pick(r, []string{"disjoint", "touching", "nested", "identical", "random"})
 	dedup := r.P(25)
+	refine := c.Case%5 == 4
+	if refine {
+		// partial overlap with long lone stretches, many ties on the first key column and a
+		// deciding second column: the shape range refinement slices into row-range views
+		keys = []sortKey{{col: "k1", desc: r.P(30)}, {col: gen.Pick(r, []string{"f", "s", "k2", "b"}), desc: r.P(30), nullsFirst: r.Bool()}}
+		scs, kdesc = nil, nil
+		for _, kk := range keys {
+			scs = append(scs, kk.column())
+			kdesc = append(kdesc, kk.String())
+		}
+		k = 2 + r.Intn(2)
+		overlap = "partial"
+		dedup = false
+		c.Obs("refine_scenarios", 1)
+	}
 	consume := []string{"rows", "row_readers", "copy_rows", "write_rowgroup"}[c.Case%4]
 	batch := gen.Pick(r, []int{1, 2, 3, 24, 64, 1000})
 	c.D("inputs", k)
@@ -95,6 +110,9 @@ func runC09(c *Ctx) {
 			}
 			c.Obs("large_inputs_refinement", 1)
 		}
+		if refine {
+			sizes[i] = gen.Pick(r, []int{1100, 1500, 2500, 3500})
+		}
 	}
 	nullKeys, dupAcross := false, map[string]int{}
 	for i := 0; i < k; i++ {
@@ -112,6 +130,8 @@ func runC09(c *Ctx) {
 				base = int64(i) * 7
 			case "identical":
 				base = 0
+			case "partial":
+				base = 0
 			default:
 				base = int64(r.Intn(3)) * 40
 			}
@@ -123,9 +143,19 @@ func runC09(c *Ctx) {
 				}
 			}
 			v := base + int64(r.Intn(int(span)))
+			if overlap == "partial" {
+				// input i covers first-key values [i*120, i*120+size/8): 8 ties per value
+				v = int64(i*120 + j/8)
+				if j%8 == 0 && r.Bool() {
+					v = int64(i*120 + r.Intn(sizes[i]/8+1))
+				}
+			}
 			row.K1 = v
 			if row.K2 != nil {
 				*row.K2 = v
+				if overlap == "partial" {
+					*row.K2 = int64(r.Intn(2000))
+				}
 			}
 			if row.OS != nil {
 				s := fmt.Sprintf("%08d", v)
@@ -136,6 +166,10 @@ func runC09(c *Ctx) {
 			}
 			row.S = fmt.Sprintf("%08d", v)
 			row.F = float64(v) / 4
+			if overlap == "partial" {
+				row.S = fmt.Sprintf("%04d", r.Intn(2000))
+				row.F = float64(r.Intn(2000))
+			}
 		}
 		sort.SliceStable(rows, func(a, b int) bool { return c10Compare(&rows[a], &rows[b], keys) < 0 })
 		for j := range rows {
@@ -167,6 +201,17 @@ func runC09(c *Ctx) {
 			var buf bytes.Buffer
 			w := parquet.NewGenericWriter[c10Row](&buf, parquet.SortingWriterConfig(parquet.SortingColumns(scs...)),
 				parquet.PageBufferSize(gen.Pick(r, []int{64, 512, 4096, 65536})), parquet.DataPageVersion(1+r.Intn(2)))
+			if refine {
+				// small pages written in batches of 7 rows: page boundaries of the columns do not line up
+				w = parquet.NewGenericWriter[c10Row](&buf, parquet.SortingWriterConfig(parquet.SortingColumns(scs...)), parquet.PageBufferSize(gen.Pick(r, []int{64, 512})))
+				for len(rows) > 7 {
+					if _, err := w.Write(rows[:7]); err != nil {
+						c.Fail("harness.write", nil, "%v", err)
+						return
+					}
+					rows = rows[7:]
+				}
+			}
 			if _, err := w.Write(rows); err != nil {
 				c.Fail("harness.write", nil, "%v", err)
 				return
